@@ -22,6 +22,12 @@ CHECKS = {
    note="T7 and its analogue for used interfaces: when an explicit import or a used interface of another version is on the track of an unsatisfied argument the statement does not fix whether they merge, so those groups are checked with a relaxed rule (no invented names; arguments served by an import at least as high as their highest version). Sharer requirements and `uses` provenance are read from wac's decoded package worlds (decoder fidelity is C08's).",
    technique="property-based testing: model-predicted interface from the operation history + metamorphic permutation of creation order, independent binary decoder (proptest)",
    design="C03"),
+ "C04": dict(
+   category="exploration",
+   text="A library of 1-4 generated components (names from plain names and interface paths with and without versions, two paths sharing a last segment, a plain name equal to a last segment, a name that is a suffix of another's last segment; types from 5 shapes with a known subtype table) plus four WIT packages, and a program of up to 9 statements built by a semantic generator (imports with inline/func/path types and `as`; `new` with named (identifier and string), inferred, spread and fill arguments, nested `new`, access, named access, parentheses; exports plain / `as` / spread) plus 11 single-fault variants. O-eval, an evaluator written from LANGUAGE.md, yields the diagnostic classes of the first ill-formed statement or the wiring; wac must reject with one of those classes, or produce an output whose section-level decoding has the same instantiation signatures (every argument's binding), export names and bindings, and imports.",
+   note="Tolerances: T3 (literal name and unique path suffix both match), an explicit import on the semver track of an implicit import (C03's T7). `export e` without `as` mirrors argument inference (path of an instance first, else imported/accessed name), as the resolver's doc comments state. Conflicting implicit imports are expected to be refused at encode time (documented); whether the merge itself is right is C03/C09's obligation.",
+   technique="property-based testing: semantic program generation + reference evaluator (model-based oracle), wiring compared through an independent section-level decoder (proptest)",
+   design="C04"),
  "C05": dict(
    category="exploration",
    text="One package text inside the shared WIT/WAC subset (interfaces with every value-type constructor, resources with constructors/methods/statics, borrows, `use` with renames in chains and diamonds; worlds with path/named/inline imports and exports and `include` with and without renames; unversioned and versioned) is encoded by wit-parser + wit-component and by wac. Both binaries are nested in one outer component; every exported interface type must be a mutual subtype of the reference's under the validator's own relation; every world type must be a mutual subtype of the reference world (R1), or of the reference world of the package in which interfaces reached only through `use` are reduced to their types (R2), or have exactly the model's explicit imports/exports with item-wise mutually-subtype types.",
